@@ -27,20 +27,26 @@ VARIABLE l
 vars == <<l>>
 
 RealOK(o, s) == o.ok /\ o.f = <<s>>
-Agrees(ctx, q, o) == LET r == Read(ctx, q) IN r.ok => (o.ok /\ o.f = r.f)
+Agrees(rd, o) == rd.ok => (o.ok /\ o.f = rd.f)
+Good(rd, s) == rd.ok /\ rd.f = <<s>>
 
 Why(r) ==
   IF r.pn THEN "panic"
-  ELSE IF ~ReadsAs("arg", r.q, r.s) THEN "spec-reader:arg:" \o Read("arg", r.q).why
-  ELSE IF ~ReadsAs("decl", r.q, r.s) THEN "spec-reader:decl:" \o Read("decl", r.q).why
-  ELSE IF ~ReadsAs("value", r.q, r.s) THEN "spec-reader:value:" \o Read("value", r.q).why
+  ELSE LET L == Lex(r.q)
+           ra == ReadWords(L, FALSE)        \* Read("arg", q)
+           rd == ReadWords(L, TRUE)         \* Read("decl", q)
+           rv == ReadValue(LexGlued(r.q))   \* Read("value", q)
+       IN
+  IF ~Good(ra, r.s) THEN "spec-reader:arg:" \o ra.why
+  ELSE IF ~Good(rd, r.s) THEN "spec-reader:decl:" \o rd.why
+  ELSE IF ~Good(rv, r.s) THEN "spec-reader:value:" \o rv.why
   ELSE IF ~RealOK(r.fa, r.s) THEN "real-reader:stdin-arg"
   ELSE IF ~RealOK(r.fe, r.s) THEN "real-reader:eval-arg"
   ELSE IF ~RealOK(r.fv, r.s) THEN "real-reader:assignment-value"
   ELSE IF ~RealOK(r.fd, r.s) THEN "real-reader:declaration-value"
   ELSE IF ~RealOK(r.fr, r.s) THEN "real-reader:array-element"
-  ELSE IF ~(Agrees("arg", r.q, r.fa) /\ Agrees("arg", r.q, r.fe) /\ Agrees("value", r.q, r.fv)
-            /\ Agrees("value", r.q, r.fd) /\ Agrees("arg", r.q, r.fr)) THEN "readers-disagree"
+  ELSE IF ~(Agrees(ra, r.fa) /\ Agrees(ra, r.fe) /\ Agrees(rv, r.fv) /\ Agrees(rv, r.fd) /\ Agrees(ra, r.fr))
+       THEN "readers-disagree"
   ELSE ""
 
 TraceInit == l = 1
